@@ -405,6 +405,10 @@ Fixpoint sb_settle (c : sbcfg) (fuel : nat) (st : sbstate) : sbstate :=
 Definition sb_do (c : sbcfg) (fuel : nat) (st : sbstate) (ops : list sbop) : sbstate :=
   sb_settle c fuel (fold_left (sb_step c) ops st).
 
+(* a harness-level schedule: groups of operations, the task settles after each group *)
+Definition sb_script (c : sbcfg) (fuel : nat) (st : sbstate) (groups : list (list sbop)) : sbstate :=
+  fold_left (sb_do c fuel) groups st.
+
 (* ---- observations *)
 Definition dkey_match (k : hkey) (e : sevent) : bool :=
   match k with KP p => e_pid e =? p | KS s => e_sid e =? s end.
